@@ -22,7 +22,9 @@ StringClasses == {"int_like", "float_like", "exp_like", "hex_like", "octal_like"
                   "bool_on", "bool_off", "null_word", "null_tilde", "empty", "date_like", "timestamp_like", "sexagesimal",
                   "inf_like", "nan_like", "multiline", "lead_space", "trail_space", "colon_space", "space_hash", "dash_space",
                   "flow_seq", "flow_map", "anchor", "alias", "tag_bang", "percent", "at_sign", "backquote", "single_quote",
-                  "double_quote", "backslash", "nonascii", "control", "tab", "long_line", "question", "pipe", "gt"}
+                  "double_quote", "backslash", "nonascii", "control", "tab", "long_line", "question", "pipe", "gt",
+                  \* characters JSON encoders escape for HTML, and text that looks like such an escape
+                  "html_chars", "escape_like"}
 NumberClasses == {"big_int_2p53p1", "uint64_max", "float_1e21", "float_0_1", "neg_zero", "float_integral", "small_exp"}
 Positions == {"description", "enum", "default", "example", "extension", "propname", "extkey"}
 NumPositions == {"extension", "example", "default_num"}
